@@ -1,5 +1,6 @@
 #include "photospline/cinter/splinetable.h"
 #include "photospline/splinetable.h"
+#include <limits>
 
 #ifdef __cplusplus
 extern "C" {
@@ -188,7 +189,20 @@ double ndsplineeval(const struct splinetable* table, const double* x,
 void ndsplineeval_gradient(const struct splinetable* table, const double* x,
                            const int* centers, double* evaluates){
 	const auto& real_table=*static_cast<const photospline::splinetable<>*>(table->data);
-	real_table.ndsplineeval_gradient(x,centers,evaluates);
+	//This function has no return value through which to report a failure
+	//(the table has too many dimensions for the vectorized evaluation), so
+	//the results are marked unusable instead of letting the exception escape
+	//into the C caller.
+	try{
+		real_table.ndsplineeval_gradient(x,centers,evaluates);
+	}catch(std::exception& ex){
+		fprintf(stderr,"%s\n",ex.what());
+		for(uint32_t i=0; i<=real_table.get_ndim(); i++)
+			evaluates[i]=std::numeric_limits<double>::quiet_NaN();
+	}catch(...){
+		for(uint32_t i=0; i<=real_table.get_ndim(); i++)
+			evaluates[i]=std::numeric_limits<double>::quiet_NaN();
+	}
 }
 	
 double ndsplineeval_deriv(const struct splinetable* table, const double* x,
